@@ -39,13 +39,36 @@ type Cluster struct {
 	Al    *applyLog
 }
 
+// freePort returns a loopback port nobody listens on. Ports come from below the kernel's
+// ephemeral range (outgoing raft and gossip connections take their local ports from there and
+// would otherwise collide with a port picked now and bound a moment later), from a window that
+// depends on the process id so that concurrent drivers do not race each other.
+var nextPort int
+
 func freePort() int {
-	l, err := net.Listen("tcp", "127.0.0.1:0")
-	if err != nil {
-		die(2, "free port: %v", err)
+	if nextPort == 0 {
+		nextPort = 12000 + (os.Getpid()*7919%200)*100
 	}
-	defer l.Close()
-	return l.Addr().(*net.TCPAddr).Port
+	for tries := 0; tries < 2000; tries++ {
+		p := nextPort
+		nextPort++
+		if nextPort >= 32000 {
+			nextPort = 12000
+		}
+		l, err := net.Listen("tcp", fmt.Sprintf("127.0.0.1:%d", p))
+		if err != nil {
+			continue
+		}
+		u, err := net.ListenPacket("udp", fmt.Sprintf("127.0.0.1:%d", p))
+		_ = l.Close()
+		if err != nil {
+			continue
+		}
+		_ = u.Close()
+		return p
+	}
+	die(2, "no free port")
+	return 0
 }
 
 // startNode creates one cluster node; join is "" for the bootstrap node.
@@ -409,6 +432,7 @@ func lower(s string) string {
 
 // step sends one command to one node and records the outcome on every node.
 func (rr *replRun) step(cmd []Tok, db int, entry *Node) bool {
+	waitFor(15*time.Second, func() bool { return rr.c.Leader() != nil })
 	lead := rr.c.Leader()
 	if lead == nil {
 		die(2, "no leader")
@@ -489,6 +513,54 @@ func (rr *replRun) step(cmd []Tok, db int, entry *Node) bool {
 	return ev["hang"] == nil && ev["stuck"] == nil
 }
 
+// burst sends the same non-idempotent write k times back to back through a forwarding follower and
+// waits until the leader's state machine has applied k more entries.
+func (rr *replRun) burst(db int) bool {
+	lead := rr.c.Leader()
+	var entry *Node
+	for _, n := range rr.live() {
+		if n != lead && n.Forward {
+			entry = n
+		}
+	}
+	if entry == nil || lead == nil {
+		return true
+	}
+	k := 2 + rr.r.Intn(3)
+	var cmd []Tok
+	switch rr.r.Intn(3) {
+	case 0:
+		cmd = []Tok{S("INCR"), S("bn")}
+	case 1:
+		cmd = []Tok{S("APPEND"), S("bs"), B("x")}
+	default:
+		cmd = []Tok{S("RPUSH"), S("bl"), B("e")}
+	}
+	cli := rr.client(entry, db)
+	c0, d0 := rr.al.snapshot()
+	wire := make([]string, len(cmd))
+	for i, t := range cmd {
+		wire[i] = rr.c.Ep.Wire(t)
+	}
+	oks := 0
+	for i := 0; i < k; i++ {
+		if r := cli.Do(wire...); r.T == "simple" {
+			oks++
+		}
+	}
+	lost := !waitFor(20*time.Second, func() bool { c1, _ := rr.al.snapshot(); return c1[lead.ID]-c0[lead.ID] >= oks })
+	ev := map[string]any{"ev": "burst", "run": rr.run - 1, "node": entry.ID, "db": strconv.Itoa(db), "cmd": toksJSON(cmd),
+		"times": k, "oks": oks, "lost": lost}
+	if !rr.c.Quiesce(10 * time.Second) {
+		ev["stuck"] = true
+	}
+	rr.prev = rr.observe(ev, c0, d0)
+	rr.tr.Emit(ev)
+	rr.tot["events"]++
+	rr.tot["bursts"]++
+	return ev["stuck"] == nil && !rr.failed
+}
+
 func (rr *replRun) pickEntry(sync bool) *Node {
 	lead := rr.c.Leader()
 	live := rr.live()
@@ -519,6 +591,9 @@ func (rr *replRun) program(p Program) bool {
 	cli.Do("FLUSHALL")
 	rr.t = StartMs
 	rr.setClocks()
+	// the program runs in a database picked at random (programs with select steps move on from there)
+	db := []int{0, 0, 1, 10}[rr.r.Intn(4)]
+	cli = rr.client(lead, db)
 	for _, c := range p.Preset {
 		wire := make([]string, len(c))
 		for i, t := range c {
@@ -526,9 +601,7 @@ func (rr *replRun) program(p Program) bool {
 		}
 		cli.Do(wire...)
 	}
-	if !rr.c.Quiesce(10 * time.Second) {
-		die(2, "cluster did not quiesce after the preset")
-	}
+	stuck := !rr.c.Quiesce(15 * time.Second)
 	fwd, skew := map[string]any{}, map[string]any{}
 	for _, n := range rr.live() {
 		fwd[n.ID] = n.Forward
@@ -539,10 +612,16 @@ func (rr *replRun) program(p Program) bool {
 		preset[i] = toksJSON(c)
 	}
 	ev := map[string]any{"ev": "reset", "run": rr.run, "fwd": fwd, "skew": skew, "preset": preset}
+	if stuck {
+		// a node does not catch up with the leader's log: it will never converge
+		ev["stuck"] = true
+	}
 	rr.prev = rr.observe(ev, c0, d0)
 	rr.tr.Emit(ev)
 	rr.run++
-	db := 0
+	if stuck {
+		return false
+	}
 	for _, s := range p.Steps {
 		if s.Tick > 0 {
 			rr.t += s.Tick
@@ -588,6 +667,9 @@ func (rr *replRun) program(p Program) bool {
 			continue
 		}
 		if !rr.step(s.Cmd, db, rr.pickEntry(rr.isSync(s.Cmd))) {
+			return false
+		}
+		if rr.r.Intn(12) == 0 && !rr.burst(db) {
 			return false
 		}
 	}
@@ -643,6 +725,23 @@ func cmdRepl(args []string) {
 	_ = fs.Parse(args)
 	if len(fs.Args()) > 0 && fs.Arg(0) == "table" {
 		replTable()
+		return
+	}
+	if len(fs.Args()) > 0 && fs.Arg(0) == "dupprobe" {
+		quiet()
+		al := newApplyLog()
+		sugardb.VerifSetHandler(al.handle)
+		c, err := newCluster(3, []bool{false, false, true}, []int64{0, 0, 0}, al)
+		if err != nil {
+			die(2, "%v", err)
+		}
+		f := Dial(c.Nodes[2].DB)
+		for i := 0; i < 3; i++ {
+			fmt.Fprintf(os.Stderr, "PROBE forwarded INCR: %+v\n", f.Do("INCR", "ctr").T)
+		}
+		time.Sleep(4 * time.Second)
+		l := Dial(c.Leader().DB)
+		fmt.Fprintf(os.Stderr, "PROBE leader GET ctr: %s\n", string(l.Do("GET", "ctr").B))
 		return
 	}
 	quiet()
